@@ -39,6 +39,7 @@ package main
 import (
 	"fmt"
 	"math"
+	"os"
 	"strconv"
 	"strings"
 
@@ -312,16 +313,28 @@ func (m *machine) op(op string) string {
 	case 'i':
 		m.touch(r)
 		var ks []int
-		m.regs[r].Inorder(func(k int) bool { ks = append(ks, k); return true })
+		m.regs[r].Inorder(func(k int) bool { ks = append(ks, k); runaway(len(ks), t); return true })
 		return "i:" + m.ints(ks)
 	case 'j':
 		if len(op) < 4 {
 			return "?"
 		}
+		if strings.HasSuffix(op, "!") { // (B lines) the callback panics where the other one returns false
+			lim, _, ok := limOf(op[3:])
+			if !ok || op[2] != ':' {
+				return "?"
+			}
+			m.touch(r)
+			var ks []int
+			swallow(stopPanic{}, func() {
+				m.regs[r].Inorder(func(k int) bool { ks = append(ks, k); runaway(len(ks), t); return stopAt(len(ks), lim, true) })
+			})
+			return "i:" + m.ints(ks)
+		}
 		m.touch(r)
 		lim, _ := strconv.Atoi(op[3:])
 		var ks []int
-		m.regs[r].Inorder(func(k int) bool { ks = append(ks, k); return len(ks) < lim })
+		m.regs[r].Inorder(func(k int) bool { ks = append(ks, k); runaway(len(ks), t); return len(ks) < lim })
 		return "i:" + m.ints(ks)
 	case 'N', 'P':
 		m.touch(r)
@@ -340,7 +353,17 @@ func (m *machine) op(op string) string {
 	return "?"
 }
 
+// exec runs one case under the watchdog: a case that does not come back (a walk over a cycle among the
+// nodes) is reported as "hang" (see guard in session.go).
 func exec(in string) string {
+	var out string
+	if res := guard(func() { out = execCase(in) }); res != "" {
+		return res
+	}
+	return out
+}
+
+func execCase(in string) string {
 	f := strings.Fields(in)
 	if len(f) == 4 && f[0] == "B" {
 		return execBig(f)
@@ -355,11 +378,7 @@ func exec(in string) string {
 			items = []string{"SHAPE " + got}
 			return
 		}
-		var all []int
-		for k := range t.Inorder {
-			all = append(all, k)
-		}
-		items = append(items, "t:"+tr.Ints(all))
+		items = append(items, "t:"+tr.Ints(inorderKeys(t)))
 		m := &machine{t: t}
 		for _, op := range split(f[4], ";") {
 			items = append(items, m.op(op))
@@ -730,9 +749,34 @@ func (x *gen) bigTrees() {
 	}
 }
 
+// replayRequested: is there a -replay flag on the command line?  (The replay loop of tr.Main does not stop
+// after a case that hangs; ours does.)
+func replayRequested() bool {
+	for _, a := range os.Args[1:] {
+		a = strings.TrimLeft(a, "-")
+		if a == "replay" || strings.HasPrefix(a, "replay=") {
+			return true
+		}
+	}
+	return false
+}
+
 func main() {
+	if replayRequested() {
+		o := tr.ParseFlags()
+		w := tr.NewW(o.Out)
+		for _, in := range tr.ReplayInputs(o.Replay) {
+			w.Case(in, exec(in), true, "replayed")
+			if hung {
+				break // the goroutine of that case is still running: nothing more can be trusted
+			}
+		}
+		w.Close(o, "C03: replay", nil)
+		return
+	}
 	tr.Main("C03: every tree shape with up to 4 (quick) / 5 (thorough) nodes x every start (each key, absent keys, Root, nil, empty) x every sequence of up to 2 (3) of the seven moves, with a clone taken first and re-read after every move; trees built by Add/Replace/Remove/Clear/New histories (ascending and descending vines, zig-zags, churn with delete-side rebuilds, bulk New, random mixes) at β in {0,1,250,500,999,1000,random} under natural, reversed and modular comparators, and from each of them random walks (from random keys and, for trees up to 16 keys, from every key) over all moves, re-anchoring, clones in up to 4 registers, Inorder (full and stopped early) and full Next/Prev sweeps from every key. Round 3: histories that grow a tree by 16-90 Adds at beta < 1000 and then remove keys (shallowest first by real depth, keeping the deepest root-to-leaf paths, from one end, ...) down to 1/2, 1/4, 1/8, with Cursor/Get/Next/Prev/Up/Min/Max/Inorder from every remaining key; compound walks (several moves, HasNext/HasPrev/Valid/Key calls among them, with nothing else observed in between): every 3-move sequence from every start of every small shape, random ones from every key of the history-built trees and inside the random walks; and big trees (B lines): beta in {0,1,50,250,500,800,999} x growth order (ascending, descending, outside-in, random; thorough also inside-out and ideal breadth-first) x removal order (low end, high end, outside-in, inside-out, ideal breadth-first and its reverse, random, evenly spaced survivors, shallowest/deepest first by real depth, keeping the deepest paths) with sizes 2^k-1, 2^k, 2^k+1 for k = 8..12 (thorough ..13; 100-400 at beta 999 where the tree is a vine), shrunk in stages to 1/2, 1/4, 1/8, 1/16 (1/32, 1/64 at beta <= 100) of the peak and regrown, after every stage from EVERY key: Tree.Cursor valid at the key, Get, flags, real path, Next and Prev steps, a Next/Prev zig-zag, Up to the root, Min, Max, Inorder of the subtree, Cursor of the absent neighbour, and full Min..Next and Max..Prev sweeps, folded into digests (key lists beyond 200 keys too) so that a line stays a few kB, plus explicit walks with clones from the deepest key, from a key whose path slice is exactly full (2^k nodes) and from a random key. The B lines carry no shape: the replay rebuilds the tree with the C01 tree model. The real shape and every cursor's real path are read from the node pointers by a hook. A case is non-trivial when the tree has at least two nodes and at least one cursor operation; distinct = distinct input lines.",
 		exec, func(g *tr.G) {
+			theG, theRule = g, "C03: see the generator (ended early after a case that did not return)"
 			x := &gen{g: g}
 			r := g.R
 			// 1. exhaustive small scope
@@ -974,6 +1018,9 @@ func main() {
 			// 4. big trees (B lines): grow, shrink to 1/2, 1/4, 1/8, 1/16 of the peak, regrow; probe EVERY key
 			// after every stage; explicit walks from the deepest keys and from keys whose path is 2^k long
 			x.bigTrees()
+			// 5. tree sessions (round 4): the whole Tree API around the creation of cursors, over a tree and
+			// its clones: setter; barrier; consumer (session.go)
+			x.sessionLines()
 			_ = fmt.Sprint
 		})
 }
